@@ -431,6 +431,9 @@ func managerList(m cmdutils.StateManager, ok bool) string {
 
 var pids = []peer.ID{common.PeerN(0)}
 
+// comment lines to print after the current case line
+var comments []string
+
 func runPins(c pinsCase) string {
 	ctx := context.Background()
 	dir := scratch("pins")
@@ -597,6 +600,9 @@ func runPins(c pinsCase) string {
 	// (b') start a Raft peer on a folder holding the snapshot
 	if c.start {
 		res["start"] = startOnSnapshot(filepath.Join(dir, "S", "raft"), src)
+		if res["start"] == "-" {
+			comments = append(comments, "# inconclusive start: no Raft leader within the timeout (3 attempts)")
+		}
 	}
 
 	return fmt.Sprintf("src=%s exp=%s expc=%s mar=%s snap=%s start=%s marx=%s", showPins(srcList),
